@@ -18,6 +18,8 @@ ASSUMPTIONS = ['invalid retention strings are not generated (the daemon exits on
 
 PATS = ['^carbon\\.', '^servers\\.', '\\.count$', 'cpu', '.*', '^a\\.', 'web[0-9]+', '^$', 'x|y', '^stats', 'mem', '\\.',
         # patterns for tagged series and values containing the characters INI dialects use for comments
+        # character classes that depend on Unicode awareness
+        '^servers\\.\\w+\\.cpu', '\\.shard\\d+\\.', '^\\w+\\.count$', '\\bload\\b', '^[^\\W\\d]+\\.',
         # patterns that match without consuming a character
         '^', '$', '^(?!carbon\\.)', '^(?!.*\\.count$)', '\\b', 'x*', '(?=.*cpu)', '',
         ';env=prod(;|$)', ';type=counter', '^app\\..*;dc=', 'x ;y', 'a #b', '#hash', '[;#]', 'cpu ; not a comment']
@@ -26,7 +28,8 @@ RETS = ['60:1440', '10s:6h', '1m:7d', '10s:6h,1m:7d,10m:5y', '1:10', '60s:90d', 
         '10s:3600s', '5:600s', '1m:86400s', '1s:30s', '2m:7200s,1h:52w', '1s:1m', '1:1m', '60:3600s', '1d:1y', '1w:1y', '1y:10y', '3:7', '90:2h',
         ' 10s:1d , 1m:30d ', '1h:1d']
 NAMES = ['carbon.agents.h.cpuUsage', 'servers.web1.cpu.user', 'a.b.count', 'stats.x', 'nomatch', 'servers.db.mem', 'x', 'web22.count',
-         'a.cpu.mem.count', 'y.z', 'plain', 'app.web.hits;env=prod', 'app.web.hits;dc=a;env=prod', 'q;type=counter', 'x#hash', 'cpu;env=stage']
+         'a.cpu.mem.count', 'y.z', 'plain', 'app.web.hits;env=prod', 'app.web.hits;dc=a;env=prod', 'q;type=counter', 'x#hash', 'cpu;env=stage',
+         'servers.m\u00fcnchen.cpu.user', 'db.shard\u0663.rows', 'requ\u00eates.count', '\u00e9t\u00e9.load', 'servers.web1.load']
 METHODS = ['average', 'sum', 'last', 'max', 'min']
 
 
